@@ -90,10 +90,17 @@ def main(argv):
         return 2
     R = framework.Run(pid, tier, getattr(mod, 'LEVEL', 'other'))
     try:
+        both = tier == 'thorough'
+        if not both:
+            hits = F.profile_sensitive()
+            if hits:
+                # quick tier escalation: the source mentions a cfg that differs between profiles, so the release MIR is analysed too
+                both = True
+                R.extra['profile_sensitive'] = ['%s: %s' % h for h in hits[:20]]
         raw, secs = F.build_facts(cfg='dev')
         fx = F.Facts(raw)
         fx_rel = None
-        if tier == 'thorough' and getattr(mod, 'NEEDS_REL', False):
+        if both and getattr(mod, 'NEEDS_REL', False):
             raw2, _ = F.build_facts(cfg='rel')
             fx_rel = F.Facts(raw2)
         R.bodies_in_facts = len(raw['fns'])
@@ -120,7 +127,7 @@ def main(argv):
         R.extra['guarded_outcomes'] = n_paths
         R.extra['call_sites_resolved'] = n_calls
         R.extra['loops'] = {k: sorted(v) for k, v in loops.items()}
-        if tier == 'thorough' and not getattr(mod, 'NEEDS_REL', False):
+        if both and not getattr(mod, 'NEEDS_REL', False):
             # thorough tier: the same rules on the release configuration's MIR (overflow checks and debug assertions off)
             raw2, secs2 = F.build_facts(cfg='rel')
             fx2 = F.Facts(raw2)
